@@ -118,6 +118,7 @@ def run_fault_retry(scn):
     lst = record.RecordingListener(on_event=lambda kind, sol: m.check("callback:" + kind + "+after-fault") if (kind == "iter" and any(e["exc"] for e in prob.log)) else None)
     solver.AddListener(lst)
     raised = 0
+    gave_up = False
     out = io.StringIO()
     with contextlib.redirect_stdout(out):
         for step in scn["pattern"]:
@@ -130,6 +131,14 @@ def run_fault_retry(scn):
                 if "injected fault" not in str(e):
                     raise
                 raised += 1
+            except Exception:
+                if not any(e_["exc"] for e_ in prob.log):
+                    raise
+                # C06 promises a faithful record, not that a search can always be continued after a failed evaluation (the interval
+                # popped for the failed trial is back in the queue only after the next refill): stop driving, audit the record as it stands
+                gave_up = True
+                m.check("after:continuation-raised+after-fault")
+                break
             if record.FP_GUARD in out.getvalue() and record.partition_degenerate(solver):
                 return {"violations": [], "obs": {"fp_domain_exhausted": 1}, "skip": "fp-domain-exhausted"}
             m.check("after:" + step[0] + ("+after-fault" if any(e["exc"] for e in prob.log) else ""))
@@ -139,7 +148,7 @@ def run_fault_retry(scn):
     faulted = any(e["exc"] for e in prob.log)
     done = len([e for e in prob.log if e["exc"] is None and e["ph"] == "g"])
     obs = {"runs": 1, "fault_retry_runs": int(faulted), "faults_at_first_evaluation": int(faulted and scn["fault_at"] == 1),
-           "faults_propagated_to_caller": raised, "trials": done, "trials_after_a_fault": max(0, done - scn["fault_at"] + 1) if faulted else 0,
+           "faults_propagated_to_caller": raised, "continuation_raised": int(gave_up), "trials": done, "trials_after_a_fault": max(0, done - scn["fault_at"] + 1) if faulted else 0,
            "items_checked": m.items_checked, "images_checked": m.images_checked, "insert_calls_checked": _insert_stats["calls"],
            "moments": sum(m.moments.values())}
     for k, v in m.moments.items():
